@@ -795,6 +795,7 @@ func runC18(cases string, res *Result) {
 	c18WrappedAssignments(res)
 	c18NestedInterfaceMaps(res)
 	c18OtherDialects(res)
+	c18TypedArgumentsAndNilEmbeds(res)
 	var smoke []c18Seq
 	private := map[string]bool{"sort": true, "reverse": true, "merge": true, "keys": true, "split": true}
 	filters := (&twig.CoreExtension{}).GetFilters()
@@ -1346,4 +1347,50 @@ func c18Brief(v interface{}, depth int) string {
 		s = s[:80] + "..."
 	}
 	return s
+}
+
+type C18Author struct{ Name string }
+type C18Post struct {
+	*C18Author
+	Title string
+	Meta  *C18Author
+}
+
+// c18TypedArgumentsAndNilEmbeds: the function forms of merge with untyped bases and typed Go maps / slices as later
+// arguments (and the other way round); records reached through pointers whose embedded pointer is nil, read and
+// tested through promoted names.
+func c18TypedArgumentsAndNilEmbeds(res *Result) {
+	mk := func() map[string]interface{} {
+		return map[string]interface{}{
+			"defaults": map[string]interface{}{"color": "red", "size": 1},
+			"labels":   map[string]string{"env": "prod", "color": "blue"},
+			"counts":   map[string]int{"a": 1},
+			"ifaces":   map[interface{}]interface{}{"k": "v"},
+			"lst":      []interface{}{1, 2},
+			"strs":     []string{"x", "y"},
+			"ints":     []int{7},
+			"empty":    map[string]interface{}{},
+			"p":        &C18Post{Title: "t"},
+			"posts":    []*C18Post{{Title: "a"}, {Title: "b", C18Author: &C18Author{"bob"}}},
+			"v":        C18Post{Title: "by value"},
+		}
+	}
+	var tpls []string
+	maps := []string{"defaults", "labels", "counts", "ifaces", "empty", "{'lit': 1}"}
+	for _, a := range maps {
+		for _, b := range maps {
+			tpls = append(tpls, "{{ merge("+a+", "+b+")|keys|join(',') }}", "{{ "+a+"|merge("+b+")|length }}", "{{ merge("+a+", "+b+", labels)|length }}")
+		}
+	}
+	lists := []string{"lst", "strs", "ints", "[9]"}
+	for _, a := range lists {
+		for _, b := range lists {
+			tpls = append(tpls, "{{ merge("+a+", "+b+")|join(',') }}", "{{ "+a+"|merge("+b+")|join(',') }}", "{{ merge("+a+", "+b+", strs)|length }}")
+		}
+	}
+	tpls = append(tpls,
+		"{{ p.Name }}|{{ p.Title }}|{{ p.Name is defined ? 'd' : 'u' }}", "{{ p.Author }}|{{ p.C18Author }}|{{ p.Meta }}|{{ p.Meta.Name }}", "{% if p.Name %}n{% endif %}{{ p.Name|default('anon') }}",
+		"{% for q in posts %}{{ q.Name|default('-') }}{{ q.Title }}{% endfor %}", "{{ posts[0].Name is defined ? 1 : 0 }}{{ posts[1].Name }}", "{{ v.Name }}{{ v.Title }}{{ v.Meta.Name }}",
+		"{{ posts|first.Name }}{{ posts|column('Name')|join }}", "{{ p|json_encode }}", "{{ dump(p) }}{{ p }}")
+	c18Family(res, "typed-arguments-and-nil-embeds", mk, nil, tpls)
 }
